@@ -167,6 +167,10 @@ fn monitored<T>(op: &str, f: impl FnOnce() -> R<T>) -> R<T> {
         Ok(r) => r,
         Err(p) => {
             let msg = p.downcast_ref::<String>().cloned().or_else(|| p.downcast_ref::<&str>().map(|s| s.to_string())).unwrap_or_else(|| "panic".into());
+            if msg.starts_with(crate::tape::TAPE_FAULT) {
+                // the injected RNG failure propagated out of the call: neither a result nor a library panic
+                return Err(E::RngFault);
+            }
             CNT.with(|c| c.borrow_mut().panics += 1);
             PANICS.with(|p| p.borrow_mut().push((op.to_string(), msg.clone())));
             Err(E::Panic(msg))
